@@ -30,6 +30,8 @@ class H:
         self.next_k = 1
         self.types = {}
         self.ctxs = []
+        self.nshards = (config or {}).get("shard_count", 1)
+        self.read_arrivals = 0   # read.mem.start arrivals so far in the current lifetime
 
     # ---- lifetimes
     def life(self, wall_ms=None, tick_ms=1000, end="shutdown", **extra):
@@ -38,6 +40,7 @@ class H:
               "tick_ms": tick_ms, "steps": [], "holds": [], "io_faults": [], "end": end}
         lf.update(extra)
         self.plan["lifetimes"].append(lf)
+        self.read_arrivals = 0
         return lf
 
     @property
@@ -89,8 +92,18 @@ class H:
         iv = self.plan["config"].get("compaction_interval", 3600)
         return self.advance((iv + 1) * 1000, settle=4)
 
-    def hold(self, hid, gate, key="", nth=1, crash=False):
-        self.cur["holds"].append({"id": hid, "gate": gate, "key": key, "nth": nth, "crash": crash})
+    def hold(self, hid, gate, key="", nth=1, crash=False, armed=True):
+        self.cur["holds"].append({"id": hid, "gate": gate, "key": key, "nth": nth, "crash": crash, "armed": armed})
+
+    def arm(self, hid):
+        return self.step({"op": "arm", "id": hid, "meta": {"kind": "arm"}})
+
+    def hold_next(self, gate, key=""):
+        """Park the next arrival at `gate` (armed by a step, so no arrival counting is needed)."""
+        hid = f"hn{len(self.cur['holds'])}"
+        self.hold(hid, gate, key=key, nth=1, armed=False)
+        self.arm(hid)
+        return hid
 
     def release(self, hid="*"):
         return self.step({"op": "release", "id": hid, "meta": {"kind": "release"}})
@@ -108,13 +121,16 @@ class H:
 
     # ---- reads
     def select(self, t, conn=0, tag=None, **extra):
+        self.read_arrivals += self.nshards
         return self.cmd(f"QUERY {t}", {"kind": "select", "type": t, "tag": tag}, conn, **extra)
 
     def count(self, t, conn=0, tag=None, **extra):
+        self.read_arrivals += self.nshards
         return self.cmd(f"QUERY {t} COUNT", {"kind": "count", "type": t, "tag": tag}, conn, **extra)
 
     def replay(self, ctx, t=None, conn=0, tag=None, **extra):
         text = f"REPLAY {t + ' ' if t else ''}FOR {ctx_text(ctx)}"
+        self.read_arrivals += 1
         return self.cmd(text, {"kind": "replay", "ctx": ctx, "type": t, "tag": tag}, conn, **extra)
 
     def read_all(self, tag=None, replay=True, count=True, types=None, ctxs=None):
@@ -133,3 +149,12 @@ class H:
 
     def done(self):
         return self.plan
+
+    def query(self, q, kind="query", conn=0, tag=None, fkey=None, **extra):
+        """Generic read described by a query dict (see qmodel.query_text)."""
+        from .qmodel import query_text
+        self.read_arrivals += 1 if q.get("ctx") is not None else self.nshards
+        if fkey is None:
+            fq = {k: q.get(k) for k in ("type", "ctx", "since", "using", "where")}
+            fkey = jdump(fq)
+        return self.cmd(query_text(q), {"kind": kind, "q": q, "tag": tag, "fkey": fkey}, conn, **extra)
